@@ -307,6 +307,51 @@ def logical_values(value, S, shape, eb, depth=0):
     raise Violation("constant-relayout", f"consumer operand defined by {getattr(op, 'name', 'block argument')}")
 
 
+def run_transpose(case, out):
+    """RemoveTransposeConstants (the rewrite pattern of the `preprocess` pass, applied directly: the pass itself shells
+    out to mlir-opt): a linalg.generic that transposes a constant tensor is folded into a transposed constant."""
+    from xdsl.dialects import arith, func
+    from xdsl.dialects.builtin import DenseIntOrFPElementsAttr
+    from xdsl.pattern_rewriter import PatternRewriteWalker
+
+    from snaxc.transforms.frontend.remove_transpose_constants import RemoveTransposeConstants
+
+    R, C, el = case["rows"], case["cols"], case["el"]
+    vals = [(v * case["mul"] + 1) % 100 for v in range(R * C)]
+    src = (
+        f"builtin.module {{\n  func.func @f() -> tensor<{C}x{R}x{el}> {{\n"
+        f"    %c = arith.constant dense<{nested(vals, [R, C])}> : tensor<{R}x{C}x{el}>\n"
+        f"    %e = tensor.empty() : tensor<{C}x{R}x{el}>\n"
+        f'    %t = linalg.generic {{indexing_maps = [affine_map<(d0, d1) -> (d1, d0)>, affine_map<(d0, d1) -> (d0, d1)>], iterator_types = ["parallel", "parallel"]}} '
+        f"ins(%c : tensor<{R}x{C}x{el}>) outs(%e : tensor<{C}x{R}x{el}>) {{\n    ^bb0(%in: {el}, %o: {el}):\n      linalg.yield %in : {el}\n    }} -> tensor<{C}x{R}x{el}>\n"
+        f"    func.return %t : tensor<{C}x{R}x{el}>\n  }}\n}}"
+    )
+    try:
+        ctx, mod = compat.parse(src)
+        PatternRewriteWalker(RemoveTransposeConstants(), apply_recursively=False).rewrite_module(mod)
+        mod.verify()
+    except Exception as e:
+        out["status"] = "rejected"
+        out["rejected"] = f"remove-transpose-constants:{type(e).__name__}"
+        return out
+    out["runs"] = out["zero_fault_runs"] = 1
+    ret = next(o for o in mod.walk() if isinstance(o, func.ReturnOp))
+    d = ret.operands[0].owner
+    if not (isinstance(d, arith.ConstantOp) and isinstance(d.value, DenseIntOrFPElementsAttr)):
+        out["probes"]["constant-not-transformed"] = 1
+        return out
+    got = [int(v) for v in d.value.get_values()]
+    want = [vals[r * C + c] for c in range(C) for r in range(R)]
+    if got != want:
+        k = next(i for i, (x, y) in enumerate(zip(got, want)) if x != y)
+        out.update(status="violation", oracle="constant-relayout", message=f"transposed {R}x{C} constant: element ({k // R}, {k % R}) of the result is {got[k]}, the transpose has {want[k]}")
+        return out
+    out["probes"]["constant-transformed"] = 1
+    out["nontrivial"] = R > 1 and C > 1
+    out["digest"] = digest_of(got)
+    return out
+
+
 def run_const(case, out):
     from xdsl.dialects import test
 
@@ -339,6 +384,8 @@ def run_const(case, out):
 
 
 def gen_case(rng, tier):
+    if rng.random() < 0.05:
+        return {"fam": "transpose", "rows": rng.randint(1, 5), "cols": rng.randint(1, 5), "el": rng.choice(["i8", "i32"]), "mul": rng.choice([1, 3, 7])}
     if rng.random() < 0.3:
         from .c05 import gen_steps
 
@@ -353,6 +400,8 @@ def gen_case(rng, tier):
 
 def execute(case):
     out = new_outcome()
+    if case["fam"] == "transpose":
+        return run_transpose(case, out)
     return run_const(case, out) if case["fam"] == "const" else run_kernels(case, out)
 
 
@@ -369,7 +418,7 @@ def _shrink_body(body):
 
 
 def shrink(case):
-    if case["fam"] == "const":
+    if case["fam"] in ("const", "transpose"):
         return
     if len(case["envs"]) > 1:
         for e in case["envs"]:
@@ -381,6 +430,8 @@ def shrink(case):
 
 
 def sample_of(case):
+    if case["fam"] == "transpose":
+        return {"family": "transpose-constant", "rows": case["rows"], "cols": case["cols"], "element": case["el"]}
     if case["fam"] == "const":
         return {"family": "constants", "program": const_program(case)[0]}
     return {"family": "kernels", "program": kernels_emit(case["ast"]), "environments": case["envs"][:2], "clear_memory_space": case["clear"]}
@@ -399,7 +450,7 @@ META = {
         "reference semantics: in the input program a kernel operates on the argument itself (a cast result aliases its source)",
         "local allocs are written before they are read; garbage is tagged by allocation site",
         "data failures in programs whose argument is first written and later read through its cast are OBSERVATIONs (the copy-in sits before the first reader as the statement words it), not violations",
-        "alloc-to-global and RemoveTransposeConstants are not exercised; no schedule or fault dimension: distinct_interleavings = 1",
+        "alloc-to-global is not exercised; RemoveTransposeConstants is applied as a rewrite pattern (its pass shells out to mlir-opt); no schedule or fault dimension: distinct_interleavings = 1",
     ],
     "interleavings": "single core: 1",
 }
